@@ -549,3 +549,73 @@ def _sk_inv0(v):
 sk.loop("for#0", invariant=_sk_inv0, types={"plates_to_score": (Int, Ref)})
 sk.loop("for#1", invariant=_sk_inv)
 sk.ensures("chunk", _sk_post)
+
+
+# ================================================================ the two command lines: the CALL plumbing (regions of the mains)
+# What is checked: the statement that calls score_chunk / select_next_plate hands over exactly the loaded objects, the generator seeded from
+# --seed and the command line's chunk / batch arguments.  (Loading, argparse and writing the result are outside these regions.)
+import ast as _ast3
+abstract_class("ScoreCliArgs", None, {"progress": TBool, "n_chunks": TInt, "chunk_index": TInt, "batch_plate_ids": TSeq(TInt)})
+abstract_class("SelectCliArgs", None, {"batch_plate_id": TSeq(TInt)})
+
+
+def _record(name, keep_contract):
+    def apply(i, a, node, fr):
+        if i._cur_label.split("[")[0].endswith("@call"):
+            i.ctx.ghost["cli_call"] = (name, a)
+            return AObj("ChunkedScoresHolder" if name == "score_chunk" else "Plate", i.ctx.fresh("cli_result", Ref))
+        return NotImplemented
+    return apply
+
+
+sk.apply = _record("score_chunk", sk)
+sn.apply = _record("select_next_plate", sn)
+
+
+def _calls(fname):
+    return lambda st: isinstance(st, _ast3.Assign) and isinstance(st.value, _ast3.Call) and getattr(st.value.func, "id", None) == fname
+
+
+cs1 = contract("batchie.cli.calculate_scores.main@call", params=[("scorer", TAObj("Scorer")), ("thetas", TAObj("ThetaHolderTok")), ("screen", TAObj("Screen")),
+                                                                 ("distance_matrix", TAObj("DistTok")), ("rng", TGenerator()), ("args", TAObj("ScoreCliArgs"))])
+cs1.region = (_calls("score_chunk"), _calls("score_chunk"))
+
+
+def _same(x, y):
+    return bool_(x is y or (hasattr(x, "term") and hasattr(y, "term") and x.term.eq(y.term)))
+
+
+def _cs1_post(a, ret, st):
+    rec = st.ctx.ghost.get("cli_call")
+    if rec is None or rec[0] != "score_chunk":
+        return [("calls_score_chunk", z3.BoolVal(False))]
+    c = rec[1]
+    from pyvc.spec import abstract_field_value, ABSTRACT_FIELDS
+    fld = lambda f: abstract_field_value("ScoreCliArgs", f, ABSTRACT_FIELDS["ScoreCliArgs"][f], a.args.term, st)  # noqa
+    bp = fld("batch_plate_ids")
+    return [("hands_over_the_loaded_objects", z3.And(_same(c.scorer, a.scorer), _same(c.thetas, a.thetas), _same(c.screen, a.screen), _same(c.distance_matrix, a.distance_matrix))),
+            ("hands_over_the_seeded_generator", bool_(c.rng is a.rng)),
+            ("hands_over_the_chunk_arguments_unchanged", z3.And(c.n_chunks == fld("n_chunks"), c.chunk_index == fld("chunk_index"))),
+            ("hands_over_the_batch_unchanged", bool_(hasattr(c.batch_plate_ids, "seq") and c.batch_plate_ids.seq.cols.eq(bp.seq.cols) and c.batch_plate_ids.seq.length.eq(bp.seq.length)))]
+
+
+cs1.ensures("plumbing", _cs1_post)
+
+cs2 = contract("batchie.cli.select_next_plate.main@call", params=[("screen", TAObj("Screen")), ("scores", T_csh), ("policy", TAObj("PlatePolicy")), ("rng", TGenerator()),
+                                                                  ("args", TAObj("SelectCliArgs"))])
+cs2.region = (_calls("select_next_plate"), _calls("select_next_plate"))
+
+
+def _cs2_post(a, ret, st):
+    rec = st.ctx.ghost.get("cli_call")
+    if rec is None or rec[0] != "select_next_plate":
+        return [("calls_select_next_plate", z3.BoolVal(False))]
+    c = rec[1]
+    from pyvc.spec import abstract_field_value, ABSTRACT_FIELDS
+    bp = abstract_field_value("SelectCliArgs", "batch_plate_id", ABSTRACT_FIELDS["SelectCliArgs"]["batch_plate_id"], a.args.term, st)
+    return [("hands_over_the_loaded_screen_scores_and_policy", z3.And(_same(c.screen, a.screen), bool_(c.scores is a.scores), _same(c.policy, a.policy))),
+            ("hands_over_the_seeded_generator", bool_(c.rng is a.rng)),
+            ("hands_over_the_batch_unchanged", bool_(hasattr(c.batch_plate_ids, "seq") and c.batch_plate_ids.seq.cols.eq(bp.seq.cols) and c.batch_plate_ids.seq.length.eq(bp.seq.length)))]
+
+
+cs2.ensures("plumbing", _cs2_post)
